@@ -521,3 +521,23 @@ M("m-g15-regress", SG, """    while op != "~=" and len(splitted) > 2 and splitte
 M("k-variable-rule", "markers/__init__.py", "|extras?", "|extra", fire=["C03"])
 M("k-variable-rule-dot", "markers/__init__.py", "|os[._]name", "|os_name", fire=["C03"])
 M("k-normalize-name", UT, '''return re.sub(r"[-_.]+", "-", name).lower()''', '''return re.sub(r"[-_.]", "-", name).lower()''', fire=["C03"])
+
+# ---------------------------------------------------------------- correct memoisation must stay silent (C10 and the behavioural checks)
+N("k-n-normalize-dict-cache", UT, '''def normalize_name(name: str) -> str:
+    return re.sub(r"[-_.]+", "-", name).lower()''', '''_normalized_names: dict[str, str] = {}
+
+
+def normalize_name(name: str) -> str:
+    if name not in _normalized_names:
+        _normalized_names[name] = re.sub(r"[-_.]+", "-", name).lower()
+    return _normalized_names[name]''', props=["C10", "C03", "C02"])
+N("k-n-normalize-lru", UT, '''def normalize_name(name: str) -> str:
+    return re.sub(r"[-_.]+", "-", name).lower()''', '''@functools.lru_cache(maxsize=None)
+def normalize_name(name: str) -> str:
+    return re.sub(r"[-_.]+", "-", name).lower()''', props=["C10", "C03"])
+N("k-n-normalize-pyver-lru", SG, '''def _normalize_python_version_specifier(marker: MarkerExpression) -> BaseSpecifier:''', '''@functools.lru_cache(maxsize=None)
+def _normalize_python_version_specifier(marker: MarkerExpression) -> BaseSpecifier:''', props=["C10", "C02", "C03"])
+N("k-n-reflect-lru", UT, '''def get_reflect_op(op: str) -> str:
+    return _op_reflect_map[op]''', '''@functools.lru_cache(maxsize=None)
+def get_reflect_op(op: str) -> str:
+    return _op_reflect_map[op]''', props=["C10", "C03", "C07"])
